@@ -407,6 +407,12 @@ impl TextResourceBuilder {
                     serde_path_to_error::deserialize(deserializer);
                 match result {
                     Ok(mut builder) => {
+                        if builder.text.is_none() {
+                            //the included file must hold the text itself (otherwise we would load the same file forever)
+                            return Err(StamError::OtherError(
+                                "TextResourceBuilder: included STAM JSON file for text resource contains no text",
+                            ));
+                        }
                         //recursion step into the new builder:
                         if self.id.is_some() && builder.id.is_none() {
                             builder.id = self.id;
